@@ -92,7 +92,7 @@ def encDFloat : DF → Bytes
 /-- big ULEB128 (`uleb128.EncodeToBytes`) coincides with `uleb` on naturals of any size -/
 def encBigDec : BigDec → Bytes
   | .val neg c e =>
-    if c = 0 then [u8 tDecimal, if neg then 3 else 2]
+    if c = 0 then encZero neg        -- after the fix: the shortest zero form, as for every other zero
     else
       let field := e.natAbs * 4 + (if e < 0 then 2 else 0) + (if neg then 1 else 0)
       u8 tDecimal :: (uleb (field % 2 ^ 64) ++ uleb c)
